@@ -310,9 +310,13 @@ fn check_clear_new(t: &mut Tape, ctx: &Ctx) -> Outcome {
             }
         }
         // a new program typed after NEW starts from scratch: its DATA is read from the first constant
-        let fresh_prog = vec!["1 DATA 11,\"NEWDATA\",33,44".to_string(), "2 DEF FNA(X)=X+1000".to_string()];
-        type_in(&mut h, &fresh_prog);
-        type_in(&mut f, &fresh_prog);
+        // (typing a line is an edit and resets the execution state by itself, so only half of
+        // the cases do it: the others probe what NEW alone left behind)
+        if t.chance(1, 2) {
+            let fresh_prog = vec!["1 DATA 11,\"NEWDATA\",33,44".to_string(), "2 DEF FNA(X)=X+1000".to_string()];
+            type_in(&mut h, &fresh_prog);
+            type_in(&mut f, &fresh_prog);
+        }
     } else {
         type_in(&mut f, &texts);
     }
